@@ -986,4 +986,28 @@ def run (st : St) : List Op → St
   | [] => st
   | op :: ops => run (step st op).2 ops
 
+/-! ### one event-intake step (event.py `EventManager._do_unsafe` / `_process_event`)
+
+Every delivered event — from the start-up walk (`_do_walk_if_needed`), from the user queue filled by
+`CloudSync.walk()` (`queue(event, from_walk=True)`) or from the provider's feed — ends, inside
+`_process_event`, with `state.update(…)` followed by `state.storage_commit()`.  `update` is tied to the
+model by the hooked writes it performs (`writes`); `fromWalk` only decides whether an unchanged object is
+skipped before `update` (then `writes = []`), never whether the commit happens. -/
+
+structure IntakeEvent where
+  fromWalk : Bool
+  writes : List Op          -- the entry creations / hooked writes of `state.update` for this event
+
+/-- `_process_event`: the event's writes, then `storage_commit` -/
+def processEvent (st : St) (ev : IntakeEvent) : Except HErr Unit × St :=
+  step (run st ev.writes) .commit
+
+/-- one intake step: the events in delivery order; stops at the first commit that raises -/
+def intakeStep (st : St) : List IntakeEvent → Except HErr Unit × St
+  | [] => (.ok (), st)
+  | ev :: rest =>
+    match processEvent st ev with
+    | (.ok _, st') => intakeStep st' rest
+    | (.error e, st') => (.error e, st')
+
 end CS.Persist
